@@ -340,12 +340,17 @@ def _family_result(module, rep):
 def run_family(wasm, plan, script, imports_spec=None, mem_hash=True, timeout=20.0, module=None):
     """Several live instances of ONE module.  plan[k] = {'kind': 'new'} (instantiated before the script with its own import
     objects) | {'kind': 'child', 'parent': p, 'at': j} (instantiated right before script entry j with the import objects of
-    instance p: imported memories / tables / globals are shared, host functions log per instance);
-    script = [(instance, export name, [(ty, bits)])].  Returns one RunResult per instance (`results` = its own calls, in order)."""
+    instance p: imported memories and globals are shared, tables and host functions are per instance);
+    script = [(instance, export name, [(ty, bits)])].  Returns one RunResult per instance (`results` = its own calls, in order); every
+    result also carries `family_log`, the host calls of all instances in the order they happened."""
     if module is None:
         module = decode(bytes(wasm))
     rep = session().request(_family_request(module, wasm, plan, script, imports_spec, mem_hash), timeout)
-    return [_family_result(module, r) for r in rep['instances']]
+    out = [_family_result(module, r) for r in rep['instances']]
+    flog = [(i, [(t, int(b)) for t, b in a]) for i, a in rep.get('family_log', [])]
+    for r in out:
+        r.family_log = flog          # host calls of the whole family in the order they happened (not attributed to an instance)
+    return out
 
 
 _default = None
